@@ -20,7 +20,25 @@ type c10State struct {
 	e       *Env
 	quietMs int              // virtual time since the last API call
 	others  map[string]int64 // second collection: uuid -> K
-	st      *Stats
+	// third collection, created from the SAME sod.Schema value as the second one (the
+	// library then holds one shared *Async for both until one of them is re-created)
+	others2  map[string]int64
+	otherCfg *AsyncCfg // current async settings of the second collection (nil: synchronous)
+	st       *Stats
+}
+
+type Other2 struct {
+	sod.Item
+	K int64
+	V string
+}
+
+func (s *c10State) other2Dir() string {
+	name := "props.Other2"
+	if s.e.cfg.Lower {
+		name = "props._other_2" // camelToSnake: a digit after a lower-case letter gets an underscore
+	}
+	return filepath.Join(s.e.root, name)
 }
 
 func (s *c10State) otherDir() string {
@@ -57,6 +75,18 @@ func (s *c10State) lagging() (docs []string, others []string, extra []string) {
 	return
 }
 
+func (s *c10State) lagging2() (others2 []string) {
+	wo := WalkDir(s.other2Dir())
+	for id, k := range s.others2 {
+		f, ok := wo.Objects[id]
+		var o Other2
+		if !ok || f.Err != "" || json.Unmarshal(f.Body, &o) != nil || o.K != k {
+			others2 = append(others2, id)
+		}
+	}
+	return
+}
+
 func (s *c10State) thresholds() (int, int) {
 	return s.e.cfg.Async.Threshold, s.e.cfg.Async.TimeoutMs
 }
@@ -87,12 +117,29 @@ func (s *c10State) afterTick(where string) {
 		if len(docs) >= thr {
 			e.failf("%s: %d objects of the Doc collection are not on disk with their last value although the threshold is %d and two poll steps passed without calls: %v", where, len(docs), thr, docs)
 		}
-		if len(others) >= thr {
-			e.failf("%s: %d objects of the second collection are not on disk although the threshold is %d and two poll steps passed without calls", where, len(others), thr)
+		if s.otherCfg != nil && len(others) >= s.otherCfg.Threshold {
+			e.failf("%s: %d objects of the second collection are not on disk although its threshold is %d and two poll steps passed without calls", where, len(others), s.otherCfg.Threshold)
+		}
+		if o2 := s.lagging2(); len(o2) >= thr {
+			e.failf("%s: %d objects of the third collection are not on disk although its threshold is %d and two poll steps passed without calls (its settings were never changed; the second collection, created from the same Schema value, was re-created)", where, len(o2), thr)
 		}
 		if len(docs)+len(others) > 0 {
 			e.flag("threshold-rule-checked-with-pending")
 		}
+	}
+	if s.otherCfg == nil && len(others) > 0 {
+		e.failf("%s: the second collection is synchronous now but %d of its objects are not on disk", where, len(others))
+	}
+	if s.quietMs >= to+200 {
+		if o2 := s.lagging2(); len(o2) > 0 {
+			e.failf("%s: %d ms without calls (timeout %d ms) but %d objects of the third collection are not on disk (its settings were never changed)", where, s.quietMs, to, len(o2))
+		}
+	}
+	if s.otherCfg != nil && s.quietMs >= s.otherCfg.TimeoutMs+200 && len(others) > 0 {
+		e.failf("%s: %d ms without calls (timeout of the second collection %d ms) but %d of its objects are not on disk", where, s.quietMs, s.otherCfg.TimeoutMs, len(others))
+	}
+	if s.otherCfg != nil && s.quietMs < s.otherCfg.TimeoutMs+200 {
+		others = nil // not due yet under its own (possibly longer) timeout
 	}
 	if s.quietMs >= to+200 {
 		if len(docs) > 0 || len(others) > 0 {
@@ -101,7 +148,7 @@ func (s *c10State) afterTick(where string) {
 		e.flag("deadline-timeout-reached")
 	}
 	dl, ol, _ := s.lagging()
-	e.dirty = len(dl)+len(ol) > 0
+	e.dirty = len(dl)+len(ol)+len(s.lagging2()) > 0
 }
 
 // afterFlush: after FlushAll (files) / FlushAllAndCommit / Close (files + schema).
@@ -114,13 +161,16 @@ func (s *c10State) afterFlush(where string, committed bool, all bool) {
 	if all && len(others) > 0 {
 		e.failf("%s returned but %d objects of the second collection are not on disk", where, len(others))
 	}
+	if o2 := s.lagging2(); all && len(o2) > 0 {
+		e.failf("%s returned but %d objects of the third collection are not on disk", where, len(o2))
+	}
 	if len(extra) > 0 {
 		e.failf("%s: files exist for objects that are not stored: %v", where, extra)
 	}
 	if !committed {
 		return
 	}
-	e.dirty = len(others) > 0
+	e.dirty = len(others)+len(s.lagging2()) > 0
 	// a second handle loads without corruption and sees the model
 	if p := e.walkProblems(true); len(p) > 0 {
 		e.failf("%s: directory does not match the model: %v", where, p)
@@ -140,6 +190,12 @@ func (s *c10State) afterFlush(where string, committed bool, all bool) {
 		}
 		e.failf("%s: a second handle on the directory does not see the model:\n%s", where, strings.Join(d, "\n"))
 	}
+	if all && len(s.others2) > 0 {
+		n, err := db2.Count(&Other2{})
+		if err != nil || n != len(s.others2) {
+			e.failf("%s: third collection: a second handle counts %d objects (err=%v), want %d", where, n, err, len(s.others2))
+		}
+	}
 	if all && len(s.others) > 0 {
 		n, err := db2.Count(&Other{})
 		if err != nil || n != len(s.others) {
@@ -153,7 +209,7 @@ func c10Profile() *Profile {
 	return &Profile{
 		Property: "C10", MaxOps: pick(14, 30),
 		W: map[string]int{"insert": 8, "update": 6, "delete": 3, "many": 2, "resurrect": 1, "query": 2,
-			"tick": 10, "flushAll": 1, "flushAllCommit": 1, "flushOne": 1, "reopen": 2, "coldUpdate": 2, "otherInsert": 3, "deleteAll": 1, "searchDelete": 1},
+			"tick": 10, "flushAll": 1, "flushAllCommit": 1, "flushOne": 1, "reopen": 2, "coldUpdate": 2, "otherInsert": 3, "other2Insert": 3, "otherSwitch": 2, "deleteAll": 1, "searchDelete": 1},
 		AllowCache: true, AllowCompress: true, ForceAsync: true, AllowLower: true,
 		MinIndexed: 0, MaxIndexed: 3, MaxUnique: 1, CasePaths: 0,
 		TinyBias: 60, BigBias: 8, HookBias: 5, RichShape: 5, MaxLeaves: 1,
@@ -182,7 +238,7 @@ func caseC10(t TB, prog *Program) {
 		vshim.SetClock(vshim.ClockReal, 1)
 		vshim.ReleaseAll()
 	}()
-	s := &c10State{others: map[string]int64{}, st: st}
+	s := &c10State{others: map[string]int64{}, others2: map[string]int64{}, st: st}
 	lagBefore := 0
 	pendingDeleted := false
 	opts := RunOpts{SweepLevel: 1, SweepEveryOp: true,
@@ -263,6 +319,42 @@ func caseC10(t TB, prog *Program) {
 				s.quietMs = to + 300
 				e.flag("one-call-after-reopen")
 				s.afterTick(fmt.Sprintf("%s: reopen, one update, then %d ms without any call", where, s.quietMs))
+			case "other2Insert":
+				o := &Other2{K: int64(len(s.others2) + 1), V: "v"}
+				if err := e.db.InsertOrUpdate(o); err != nil {
+					e.failf("%s: insert into the third collection: %v", where, err)
+				}
+				s.others2[o.UUID()] = o.K
+				got, err := e.db.Get(&Other2{Item: itemOf(o.UUID())})
+				if err != nil || got.(*Other2).K != o.K {
+					e.failf("%s: an accepted async write into the third collection is not visible at once: %v (the second collection, created from the same Schema value, may have been re-created with other settings; this one never was)", where, err)
+				}
+			case "otherSwitch":
+				// re-create the SECOND collection with other async settings (or none)
+				ns := sod.DefaultSchema
+				var nc *AsyncCfg
+				if op.Ms > 0 {
+					nc = &AsyncCfg{Threshold: 1 + op.Ref%6, TimeoutMs: op.Ms}
+					ns.Asynchrone(nc.Threshold, time.Duration(nc.TimeoutMs)*time.Millisecond)
+				}
+				if err := e.db.Create(&Other{}, ns); err != nil {
+					e.failf("%s: re-creating the second collection with other async settings: %v", where, err)
+				}
+				s.otherCfg = nc
+				e.flag("second-collection-recreated")
+				// everything accepted stays readable, in all three collections
+				for id, k := range s.others2 {
+					got, err := e.db.Get(&Other2{Item: itemOf(id)})
+					if err != nil || got.(*Other2).K != k {
+						e.failf("%s: after re-creating the second collection, an object of the third collection is no longer readable: %v", where, err)
+					}
+				}
+				for id, k := range s.others {
+					got, err := e.db.Get(&Other{Item: itemOf(id)})
+					if err != nil || got.(*Other).K != k {
+						e.failf("%s: after re-creating the second collection one of its objects is no longer readable: %v", where, err)
+					}
+				}
 			case "otherInsert":
 				o := &Other{K: int64(len(s.others) + 1), V: "v"}
 				if err := e.db.InsertOrUpdate(o); err != nil {
@@ -278,7 +370,7 @@ func caseC10(t TB, prog *Program) {
 			vshim.WaitParked(guardReal)
 			// integrity is only comparable when nothing lags behind on disk
 			dl, ol, _ := s.lagging()
-			e.dirty = len(dl)+len(ol) > 0
+			e.dirty = len(dl)+len(ol)+len(s.lagging2()) > 0
 		},
 	}
 	e := NewEnv(t, prog, opts)
@@ -289,6 +381,12 @@ func caseC10(t TB, prog *Program) {
 	if err := e.db.Create(&Other{}, o); err != nil {
 		e.failf("Create second collection: %v", err)
 	}
+	// same Schema value (hence the same *Async) for the third collection
+	if err := e.db.Create(&Other2{}, o); err != nil {
+		e.failf("Create third collection: %v", err)
+	}
+	oc := *e.cfg.Async
+	s.otherCfg = &oc
 	vshim.WaitParked(guardReal)
 	e.Run()
 	// final Close: complete for every collection
